@@ -6,7 +6,7 @@ from mkprops import write
 IMP = """From Coq Require Import List Arith Bool NArith.
 From FFSM2 Require Import Model.TaskList Model.BitArray Model.BitStream Model.Plan Model.Ancestors Model.Machine
   Proofs.BitArrayProofs Proofs.TaskListProofs Proofs.TaskListRun Proofs.PlanProofs Proofs.MachineFrame Proofs.MachinePlan Proofs.MachineLife Proofs.GuardProofs Proofs.CycleProofs Proofs.PlanStep
-  Proofs.SerialProofs Proofs.LogProofs Proofs.MachineTop Model.Multi Generated.InitFacts Proofs.ConstructProofs Proofs.LifeMonitor Proofs.ActivationRounds Proofs.IndexSafety Proofs.FeatureProofs Model.Script Proofs.Contract.
+  Proofs.SerialProofs Proofs.LogProofs Proofs.MachineTop Model.Multi Generated.InitFacts Proofs.ConstructProofs Proofs.LifeMonitor Proofs.ActivationRounds Proofs.IndexSafety Proofs.FeatureProofs Model.Script Proofs.Contract Proofs.Histories.
 Import ListNotations."""
 
 VOC = ("Vocabulary: Ready cfg s a = the machine is at a point where requests are processed (or between API calls) with state a < n active, "
@@ -227,6 +227,33 @@ SPECS.update({
    ("C10_tasklist_every_history", "tl_run_FL", ""), ("C10_tasklist_no_leak", "emplace_all_spec", ""),
  ]),
 })
+
+# whole-history forms (Proofs/Histories.v): the per-call statements hold at every call of every in-contract history
+SPECS["C01"][1].extend([
+   ("C01_trace_only_grows", "trace_monotone", "what a prefix of a history produced stays in the trace: later calls only add events (so an enter() once delivered is never un-delivered and the pairing argument is over one growing trace)"),
+])
+SPECS["C02"][1].extend([
+   ("C02_cut_any_history_anywhere", "at_every_call", "wherever an in-contract history from construction is cut, the state before the next call satisfies the invariant, is Ready when the machine is active, and the call is one step of the model - so every per-call statement of this file applies to every call of every history"),
+   ("C02_every_external_request_of_every_history", "every_change_of_every_history", "every changeTo()/changeWith() made from outside, at any point of any history: active state, plan and previous transition are unchanged, the request is stored, at most one log record and no callback"),
+   ("C02_every_immediate_change_of_every_history", "every_immediate_change_of_every_history", "every immediateChangeTo()/immediateChangeWith(), at any point of any history: at most SUBSTITUTION_LIMIT guard rounds, and the active state afterwards is the last survivor's destination, or unchanged when nothing survived"),
+])
+SPECS["C04"][1].extend([
+   ("C04_every_immediate_change_of_every_history", "every_immediate_change_of_every_history", "at any point of any history an immediate change uses at most SUBSTITUTION_LIMIT guard rounds and ends with exactly one active state below n"),
+   ("C04_every_cycle_of_every_history", "every_cycle_of_every_history", "likewise every update()/react() of every history ends with one active state below n and the invariant restored"),
+])
+SPECS["C05"][1].insert(-1, ("C05_every_cycle_of_every_history", "every_cycle_of_every_history", "every update()/react() at any point of any in-contract history: the six phase deliveries to the root and to the state active when the call began, in order, each recipient once; then the plan step; then request processing"))
+SPECS["C05"][1].insert(-1, ("C05_every_query_of_every_history", "every_query_of_every_history", "every query() of every history: query(root), query(active), core unchanged"))
+
+SPECS["C11"][1].extend([
+   ("C11_replica_follows_every_history", "replica_follows_every_history", "over whole histories: the authority runs any in-contract history of enter/exit/update/react/changeTo/changeWith/immediateChange*/succeed/fail/plan edits/query under callbacks orc; the replica (arbitrary callbacks orc') is driven only by replayEnter(previous.destination or 0) after enter(), replayTransition(previous.destination) after each processing call whose previousTransition() is set, exit() after exit(). After every call the replica's active state equals the authority's, and everything appended to the replica's trace is enter/exit/reenter - no guard is consulted on it"),
+   ("C11_replica_follows_from_any_agreeing_pair", "replica_follows_from", ""),
+   ("C11_replica_follows_manual", "replica_follows_manual", "manual activation: both instances are constructed inactive, so the premise 'constructed in the same state' holds whatever the callbacks do"),
+   ("C11_one_call_mirrored", "follow_step", "one call of the authority and its mirror on the replica"),
+])
+SPECS["C12"][1].extend([
+   ("C12_between_any_two_histories", "load_roundtrip_between_histories", "over whole histories: whatever in-contract histories (and callbacks) the saver and the loader have behind them, load(save(saver)) into the loader leaves it with the saver's activity, by exactly the lifecycle change needed and enter/exit/reenter callbacks only"),
+   ("C12_reachable_states_can_be_saved", "reachable_saver_ok", ""),
+])
 
 if __name__ == "__main__":
     which = sys.argv[1:] or sorted(SPECS)
